@@ -122,6 +122,7 @@ def build(node):
 
 
 nan, inf = float('nan'), float('inf')
+MIXED = ['hello', 'a & b < c', 'two  words', '"q" \'s\'', 'non-BMP \U0001D11E', ']]> &amp;']
 out['nested'] = []
 if job.get('nested'):
     import impl_runner as R
@@ -154,5 +155,19 @@ if job.get('nested'):
                 rec['in'] = in1[:800]
         except Exception as ex:
             rec['exc'] = type(ex).__name__ + ':' + str(ex)[:100]
+        # text on an element that also has children (accepted by the library for complex types without simple content): the accepted
+        # string must come back from a standard parser, indentation aside
+        if node['py'] is None and node['kids']:
+            try:
+                e2 = build(node)
+                txt = MIXED[len(out['nested']) % len(MIXED)]
+                e2.value_ = txt
+                if e2.value_ == txt:
+                    s2 = ts(e2)
+                    if not s2.startswith('EXC:'):
+                        got = ET.fromstring(s2).text or ''
+                        rec['mixed'] = [txt, got, got.strip() == txt.strip()]
+            except Exception as ex:
+                rec['mixed_skip'] = type(ex).__name__
         out['nested'].append(rec)
 json.dump(out, sys.stdout)
